@@ -1,13 +1,14 @@
 SPECIFICATION Spec
 CONSTANTS
-    Callers = {"rej401", "anon", "other", "a", "b"}
-    Creds = {"opaque", "jws3", "not_json", "cl_over_small"}
-    Outcomes = {"hit60", "miss", "unavail"}
+    Callers = {"other", "a", "b"}
+    Creds = {"opaque", "jws3", "cl_over_small"}
+    Outcomes = {"hit60", "miss"}
     AuthFn = {TRUE}
     RateCfg = 2
     DefTTLCfg = 120
     W = 2
-    MaxT = 6
+    MaxT = 5
+    Ticks = {1}
     Mode = "mc"
     Depth = 0
 VIEW ViewMC
